@@ -12,7 +12,7 @@ from .. import model as M
 
 ID = "C01"
 RULE = ("Programs with 1-4 splitter fields (optional salt incl. non-ASCII, 1-3 return statements) and field values "
-        "str/int/float (nan, +-inf, -0.0)/bool/None. (a) In-process histories: generated sequences of new(source), "
+        "str/int/float (nan, +-inf, -0.0)/bool/None, incl. clusters of values that are ==-equal but print differently (1/True/1.0, 0/False/-0.0, 2/2.0). (a) In-process histories: generated sequences of new(source), "
         "recompile(evaluator, other source), recompile(same source), call(evaluator, inputs) over several evaluator instances "
         "of 2-3 sources, incl. recompile cycles A->B->A and repeated calls in different orders. (b) Cross-process: a batch of "
         "(source, inputs) pairs is evaluated in child interpreters with PYTHONHASHSEED in {0,1,4242,random}, "
@@ -41,9 +41,18 @@ def _source(draw):
     return sk
 
 
+# values that compare (and hash) equal but print differently: a cache keyed on == / hash would confuse them
+CLUSTERS = [[1, True, 1.0], [0, False, 0.0, -0.0], [2, 2.0], [10 ** 20, 1e20], [-1, -1.0], [7, 7.0]]
+
+
 @st.composite
-def _inputs(draw, prog, classes, iv):
+def _inputs(draw, prog, classes, iv, cluster=None):
     env = draw(gen.inputs_for(prog, classes, iv))
+    if cluster is not None:
+        for s in prog["splitters"]:
+            if classes.get(s) == "any":
+                env[s] = draw(st.sampled_from(cluster))
+        return env
     for s in prog["splitters"]:
         if classes.get(s) == "any" or draw(st.integers(0, 2)) == 0 and classes.get(s) not in ("num", "str", "tup", "coll"):
             env[s] = draw(_values())
@@ -56,7 +65,8 @@ def histories(draw):
     inputs = []
     for sk in srcs:
         iv = gen.interesting_values(sk["prog"], sk["classes"])
-        inputs.append([M.enc_inputs(draw(_inputs(sk["prog"], sk["classes"], iv))) for _ in range(draw(st.integers(2, 4)))])
+        cluster = draw(st.sampled_from(CLUSTERS)) if draw(st.integers(0, 2)) == 0 else None
+        inputs.append([M.enc_inputs(draw(_inputs(sk["prog"], sk["classes"], iv, cluster))) for _ in range(draw(st.integers(2, 4)))])
     ops = []
     for _ in range(draw(st.integers(4, 40))):
         k = draw(st.sampled_from(["new", "recompile", "recompile_same", "call", "call", "call", "cycle"]))
